@@ -10,6 +10,8 @@ type conditionPart struct {
 	expr ast.Expression
 	op   string
 	isOp bool
+	// comments placed after a nested compound expression, they belong to its last operand
+	trailing ast.Comments
 }
 
 // collectCompoundConditionParts flattens top-level && and || into a linear list.
@@ -24,6 +26,11 @@ func collectCompoundConditionParts(expr ast.Expression, parts *[]conditionPart) 
 			collectCompoundConditionParts(t.Left, parts)
 			*parts = append(*parts, conditionPart{isOp: true, op: t.Operator})
 			collectCompoundConditionParts(t.Right, parts)
+			// The flattened expression node itself is not printed, keep its trailing comments on the last operand
+			if len(t.Trailing) > 0 && len(*parts) > 0 {
+				last := &(*parts)[len(*parts)-1]
+				last.trailing = append(last.trailing, t.Trailing...)
+			}
 			return true
 		}
 	}
@@ -69,14 +76,14 @@ func (f *Formatter) formatConditionLines(expr ast.Expression) ([]string, bool, b
 			break
 		}
 
-		var operands []ast.Expression
+		var operands []conditionPart
 		var ops []string
 		for _, part := range parts {
 			if part.isOp {
 				ops = append(ops, part.op)
 				continue
 			}
-			operands = append(operands, part.expr)
+			operands = append(operands, part)
 		}
 
 		if len(operands) == 0 || len(operands) != len(ops)+1 {
@@ -86,9 +93,12 @@ func (f *Formatter) formatConditionLines(expr ast.Expression) ([]string, bool, b
 		lines := []string{}
 		preserve := false
 		for i, operand := range operands {
-			opLines, _, opPreserve := f.formatConditionLines(operand)
+			opLines, _, opPreserve := f.formatConditionLines(operand.expr)
 			if len(opLines) == 0 {
 				continue
+			}
+			if v := f.formatComment(operand.trailing, "", 0); v != "" {
+				opLines[len(opLines)-1] = opLines[len(opLines)-1] + " " + v
 			}
 			if i < len(ops) {
 				opLines[len(opLines)-1] = opLines[len(opLines)-1] + " " + ops[i]
